@@ -109,6 +109,7 @@ POST = [
     " (1999)", " (2000)", " (2d Cir. 1994)", " (1993 amendments omitted)", " ()", " ()x)", " (", ")", " (x)", " (quoting (y) z)",
     ", 5", ", at 5-6", " [1999]", " (1999", " 1999)", " (99999)", " (n.d.)", ";", ". ", " (West 1999)", " (May 2, 1999)", " (1999-",
     " (Wyo. ", "\n", " (  holding that x)", " ( x )", "  (z)", " (holding that the 1964 Act applies)",
+    " (quoting Smith, 2 U.S. at 7)", ", cert. denied, id. at 5", ",\t\t5", "\t\tat 7", "\u00a0\u00a0(1999)",
     ", 5\u20137", " at 8\u20139", ", slip op. at 5", " note 12, at 240", " n. 4, at 7", " (. 1999)", " (*** 1973)", " (  1993)", " [§ 1993]", " (— 1993)",
 ]
 
